@@ -46,6 +46,7 @@ type Light struct {
 	idx     int
 	node    int
 	viaJSON bool
+	late    bool // applies an update to its elements after adopting the elements the update created
 	els     map[[32]byte]*tracked
 }
 
@@ -62,6 +63,7 @@ func (w *World) setupLights() {
 	for i := 0; i < w.cfg.Lights; i++ {
 		l := &Light{idx: i, node: w.tape.Choose(len(w.nodes)), els: map[[32]byte]*tracked{}}
 		l.viaJSON = w.cfg.LightJSON && (i%2 == 1 || w.cfg.Profile == "C20")
+		l.late = w.tape.Chance(1, 2)
 		w.lights = append(w.lights, l)
 		// start with some genesis elements
 		n := w.nodes[l.node]
@@ -140,12 +142,24 @@ func (w *World) lightsApplied(n *Node, e *blockEntry, au consensus.ApplyUpdate) 
 			u = au2
 			w.stats.Inc("probe.light.json-update")
 		}
-		// refresh proofs
-		for _, t := range l.sorted() {
-			if p := guard(func() { u.UpdateElementProof(&t.se) }); p != "" {
-				w.violate(w.lightProp(l), "update-proof-panic", fmt.Sprintf("ApplyUpdate.UpdateElementProof panicked for %s element %x at height %d: %s", t.kind, t.id[:4], e.height, p))
-				return
+		// refresh proofs: before adopting the block's new elements or (clients
+		// of the other habit) after, in which case the update is also applied to
+		// elements it created itself, which it must leave alone
+		failed := false
+		refresh := func() {
+			for _, t := range l.sorted() {
+				if p := guard(func() { u.UpdateElementProof(&t.se) }); p != "" {
+					w.violate(w.lightProp(l), "update-proof-panic", fmt.Sprintf("ApplyUpdate.UpdateElementProof panicked for %s element %x (leaf %d, in accumulator since height %d) at height %d: %s", t.kind, t.id[:4], t.se.LeafIndex, t.born, e.height, p))
+					failed = true
+					return
+				}
 			}
+		}
+		if !l.late {
+			refresh()
+		}
+		if failed {
+			return
 		}
 		// follow status changes and adopt new elements
 		adopt := func() bool { return len(l.els) < 64 && w.tape.Chance(1, 3) }
@@ -194,6 +208,13 @@ func (w *World) lightsApplied(n *Node, e *blockEntry, au consensus.ApplyUpdate) 
 		if adopt() {
 			ci := au.ChainIndexElement()
 			l.els[ci.ID] = &tracked{kind: "ci", id: ci.ID, se: ci.StateElement.Copy(), ci: ci.ChainIndex, born: e.height}
+		}
+		if l.late {
+			refresh()
+			w.stats.Inc("probe.light.refresh-after-adopt")
+			if failed {
+				return
+			}
 		}
 		w.verifyLight(l, n.tip, w.ledgers[e.id], fmt.Sprintf("applying block %s (height %d)", short(e.id), e.height))
 	}
